@@ -152,6 +152,20 @@ def run_eq(chk, case):
                     chk.violation("eq:shape:%s" % tag, "the projection changed the outcome layout %s -> %s" % (shape, tuple(rg.shape)), case)
             except Exception as e:
                 chk.violation("eq:exception:%s:shape" % tag, "%r" % e, case)
+    # the memory layout of the arrays the object was built from is not part of its value
+    if ty in ("gate", "mprocess"):
+        from quara.objects.gate import Gate
+        from quara.objects.mprocess import MProcess
+        for lay, conv in (("column_major", np.asfortranarray), ("transposed_view", lambda a_: np.ascontiguousarray(a_.T).T)):
+            try:
+                ol = Gate(obj.composite_system, conv(obj.hs.copy()), is_physicality_required=False) if ty == "gate" else \
+                    MProcess(obj.composite_system, [conv(h.copy()) for h in obj.hss], is_physicality_required=False)
+                rl = ol.calc_proj_eq_constraint()
+                il = ol.calc_proj_ineq_constraint()
+                if not coords.close(stacked(rl), stacked(want), 1e-9) or not coords.close(stacked(il), stacked(obj.calc_proj_ineq_constraint()), 1e-9):
+                    chk.violation("memory_layout:%s:%s" % (lay, tag), "projections of an object built from %s arrays differ from those of the same matrices in row-major memory" % lay.replace("_", " "), case)
+            except Exception as e:
+                chk.violation("memory_layout:exception:%s" % tag, "%r" % e, case)
     cls = type(obj)
     c = obj.composite_system
     for para in (False, True):
